@@ -136,6 +136,11 @@ type Instance struct {
 func (c *CloudProvider) GetInstance(node *v1.Node) (cloudprovider.Instance, error) {
 	var instance *Instance
 
+	// aws:///<az>/<instance-id>
+	if len(strings.Split(node.Spec.ProviderID, "/")) < 5 {
+		return nil, fmt.Errorf("malformed provider id %q for node %v", node.Spec.ProviderID, node.Name)
+	}
+
 	id := providerIDToInstanceID(node.Spec.ProviderID)
 
 	input := &ec2.DescribeInstancesInput{
